@@ -93,6 +93,8 @@ fn sources() -> Vec<RV> {
     vec![
         RV::Str("s".into()),
         RV::Str(String::new()),
+        RV::Str("long text ".repeat(500)),
+        RV::Str("é".repeat(1100)),
         RV::Int(5),
         RV::Int(i128::MAX),
         RV::float(1.5),
@@ -400,7 +402,7 @@ pub fn run(tier: Tier) -> i32 {
             other => bad(&mut acc, "roundtrip-decimal".into(), format!("{d} -> Value -> Decimal = {other:?}")),
         }
     }
-    for d in [DateTime::<Utc>::MIN_UTC, DateTime::<Utc>::MAX_UTC, DateTime::from_timestamp(1438226773, 5).unwrap(), DateTime::from_timestamp(-1, 999_999_999).unwrap()] {
+    for d in [DateTime::<Utc>::MIN_UTC, DateTime::<Utc>::MAX_UTC, DateTime::from_timestamp(1438226773, 5).unwrap(), DateTime::from_timestamp(-1, 999_999_999).unwrap(), DateTime::from_timestamp(1_483_228_799, 1_250_000_000).unwrap(), DateTime::from_timestamp(951_782_399, 1_999_999_999).unwrap()] {
         acc.count("executions", 1);
         let v: Value = d.into();
         match DateTime::<Utc>::try_from(v) {
